@@ -24,7 +24,7 @@ CORE_ALLOWED = ("optional_zero", "kwargs_param", "multiline_summary", "float_def
                 "default_without_prose", "str_with_dot", "str_with_quote", "multiline_prose", "foreign_tokens", "returns",
                 "returns_only", "nodefault_after_default", "int_literal", "single_literal", "required_bool", "none_default", "returns_default")
 FRONTIER_KNOBS = irprops.frontier_knobs((
-    "untyped_param", "bare_param", "empty_str", "code_default", "long_return_prose",
+    "untyped_param", "bare_param", "empty_str", "code_default", "long_return_prose", "mixed_union",
 ))
 FLOORS = {"has_default": 0.3}
 KIND = "argparse"
@@ -59,6 +59,8 @@ def _zero_ok(exp, got_default):
         return got_default == ""
     if t.startswith("Optional["):
         return False
+    if t in domain.MIXED_UNIONS:  # falls back to str, whose zero value is ''
+        return got_default == ""
     # the "type" of an option is the scalar argparse converts with: the element type of List[..] / the type of the
     # Literal members
     names = domain.type_names(t)
@@ -74,6 +76,8 @@ def _type_map(et, exp):
     """Documented normalisation: what argparse cannot express falls back to str (here: a parameter without any type)."""
     if et is None:
         return {None, "str", "Optional[str]"}
+    if et in domain.MIXED_UNIONS:  # not expressible: str (not one of the scalars the type happens to mention)
+        return {"Optional[str]"} if et.startswith("Optional[") else {"str"}
     return {et}
 
 
